@@ -1,4 +1,6 @@
 import RsslVerif.Model.Targets
+import RsslVerif.Model.SimplifyCbuffers
+import RsslVerif.Gen.CbufferTables
 import RsslVerif.Lemmas.MacroLite
 /-!
 # C18 — targets agree on everything that is target-independent
@@ -590,6 +592,156 @@ example :
     (bindingsFor codeNameMaps .HlslForDirectX false ds).map comparable =
       .ok [("g_t", .Texture2d, some 3), ("g_c", .ConstantBuffer, some 1)] ∧
     (bindingsFor codeNameMaps .HlslForDirectX false ds).map List.length = .ok 4 ∧
-    (bindingsFor codeNameMaps .Msl false ds).map List.length = .ok 3 := by decide
+    (bindingsFor codeNameMaps .Msl false ds).map comparable =
+      .ok [("g_t", .Texture2d, some 3), ("g_c", .ConstantBuffer, some 1)] := by decide
+
+
+/-! ## 5. Metal rewrites cbuffer blocks before it reflects (`simplify_cbuffers`)
+
+The Metal exporter does not see `cbuffer` blocks: `simplify_cbuffers` has turned each of them into a struct and a
+`ConstantBuffer<struct>` global.  `Model.SimplifyCbuffers` mirrors that rewrite of the root-definition list; the theorems
+say that reflecting the rewritten list on Metal gives, block for block, what the thin model (`report` on `.cbuffer`) says,
+so that every statement above about `bindingsFor` holds for the composition bind -> rewrite -> analyse; in particular a
+cbuffer block keeps exactly one binding on every target whatever its members are (none included). -/
+section Simplify
+open RsslVerif.Model.SimplifyCbuffers RsslVerif.Gen.CbufferTables
+
+/-- Tie to the source: the pass has the modelled text (every cbuffer of the registry, unconditionally; root definitions
+    rewritten one for two), Metal runs it first, slots are assigned before, and every cbuffer block gets a slot. -/
+theorem simplify_cbuffers_as_modelled :
+    simplifyEveryCbuffer = true ∧ mslSimplifiesFirst = true ∧ slotsAssignedBeforeExport = true ∧
+    everyCbufferGetsASlot = true := by decide
+
+/-- one root definition: Metal's analysis of what the pass makes of it = the thin model's report for the declaration -/
+theorem mslReport_simplify_one (rn : NameMaps) (r : Root) :
+    mslReports rn (paramsFor .Msl false) (simplify [r]) =
+      (match toDecl r with
+       | none => .ok []
+       | some d => (report rn .msl (paramsFor .Msl false) d).map (·.toList)) := by
+  cases r with
+  | other => rfl
+  | global n g =>
+    simp only [simplify, mslReports, mslReport, toDecl, Bool.false_eq_true, if_false]
+    cases report rn .msl (paramsFor .Msl false) ⟨n, g.toShape⟩ with
+    | error e => rfl
+    | ok b => simp [Except.map]
+  | cbuffer n ms =>
+    simp only [simplify, mslReports, mslReport, toDecl, if_true, report, reportedName]
+    cases kindTable .msl .ConstantBuffer with
+    | none => rfl
+    | some dk => simp [Except.map, countOf]
+
+theorem simplify_cons (r : Root) (rs : List Root) : simplify (r :: rs) = simplify [r] ++ simplify rs := by
+  cases r <;> simp [simplify]
+
+theorem mslReports_append (rn : NameMaps) (p : Params) (a b : List Root') :
+    mslReports rn p (a ++ b) =
+      (match mslReports rn p a with
+       | .error e => .error e
+       | .ok x => match mslReports rn p b with
+         | .error e => .error e
+         | .ok y => .ok (x ++ y)) := by
+  induction a with
+  | nil =>
+    simp only [List.nil_append, mslReports]
+    cases mslReports rn p b <;> simp
+  | cons d ds ih =>
+    simp only [List.cons_append, mslReports, ih]
+    cases mslReport rn p d with
+    | error e => rfl
+    | ok r =>
+      simp only
+      cases mslReports rn p ds with
+      | error e => rfl
+      | ok x =>
+        simp only
+        cases mslReports rn p b with
+        | error e => rfl
+        | ok y => simp
+
+/-- **Bind, rewrite, analyse = the thin model.**  For any list of root definitions (cbuffer blocks with any members,
+    none included): Metal's reflection of the module `simplify_cbuffers` produces is `reports .. .msl` of the declaration
+    list - one `ConstantBuffer` binding per block under the block's (Metal-mapped) name. -/
+theorem msl_reflects_simplified_module (rn : NameMaps) (rs : List Root) :
+    mslBindings rn rs = reports rn .msl (paramsFor .Msl false) (decls rs) := by
+  unfold mslBindings
+  induction rs with
+  | nil => rfl
+  | cons r rs ih =>
+    rw [simplify_cons, mslReports_append, mslReport_simplify_one, ih]
+    cases r with
+    | other =>
+      simp only [toDecl, decls, List.filterMap_cons]
+      cases reports rn .msl (paramsFor .Msl false) (List.filterMap toDecl rs) <;> simp
+    | global n g =>
+      simp only [toDecl, decls, List.filterMap_cons, reports]
+      cases report rn .msl (paramsFor .Msl false) ⟨n, g.toShape⟩ with
+      | error e => rfl
+      | ok b =>
+        simp only [Except.map]
+        cases reports rn .msl (paramsFor .Msl false) (List.filterMap toDecl rs) <;> rfl
+    | cbuffer n ms =>
+      simp only [toDecl, decls, List.filterMap_cons, reports]
+      cases report rn .msl (paramsFor .Msl false) ⟨n, .cbuffer⟩ with
+      | error e => rfl
+      | ok b =>
+        simp only [Except.map]
+        cases reports rn .msl (paramsFor .Msl false) (List.filterMap toDecl rs) <;> rfl
+
+/-- **All targets report the same descriptor kinds and counts for any module, the Metal rewrite included** (static
+    samplers and buffer addresses aside): HLSL flavour `t` reflecting the module as written vs Metal reflecting the
+    rewritten module.  Full strength for kinds / counts / order; any name maps, any cbuffer members. -/
+theorem kinds_counts_shared_through_simplify (rn : NameMaps) (t : Target) (sba : Bool) (rs : List Root)
+    (ht : backendOf t = .hlsl) :
+    (hlslBindings rn t sba rs).map comparableKindsCounts = (mslBindings rn rs).map comparableKindsCounts := by
+  rw [msl_reflects_simplified_module]
+  have := binding_kinds_counts_shared rn t .Msl sba false (decls rs)
+  unfold bindingsFor at this
+  rw [ht] at this
+  exact this
+
+/-- **Partial (names)**: the same with the binding names, for the code's name maps, provided every declared name is
+    reserved in neither or in both target languages (what is missing for the full statement is that hypothesis; without
+    it the statement is false: `binding_names_not_shared`). -/
+theorem bindings_shared_through_simplify_partial (t : Target) (sba : Bool) (rs : List Root)
+    (ht : backendOf t = .hlsl) (halike : ∀ d ∈ decls rs, reservedAlike d = true) :
+    (hlslBindings codeNameMaps t sba rs).map comparable = (mslBindings codeNameMaps rs).map comparable := by
+  rw [msl_reflects_simplified_module]
+  have := binding_names_kinds_counts_shared_partial t .Msl sba false (decls rs) halike
+  unfold bindingsFor at this
+  rw [ht] at this
+  exact this
+
+/-- a cbuffer block keeps exactly one binding on every target, whatever its members are -/
+theorem cbuffer_block_one_binding_everywhere (n : String) (ms : List String) (hn : reservedAlike ⟨n, .cbuffer⟩ = true) :
+    (hlslBindings codeNameMaps .HlslForDirectX false [.cbuffer n ms]).map comparable = .ok [(n, .ConstantBuffer, some 1)] ∧
+    (hlslBindings codeNameMaps .HlslForVulkan true [.cbuffer n ms]).map comparable = .ok [(n, .ConstantBuffer, some 1)] ∧
+    (mslBindings codeNameMaps [.cbuffer n ms]).map comparable = .ok [(n, .ConstantBuffer, some 1)] := by
+  have h1 : (hlslBindings codeNameMaps .HlslForDirectX false [.cbuffer n ms]).map comparable =
+      .ok [(n, .ConstantBuffer, some 1)] := by
+    simp [hlslBindings, decls, toDecl, reports, report, reportedName, Except.map, comparable, isAddressKind]
+  have h2 : (hlslBindings codeNameMaps .HlslForVulkan true [.cbuffer n ms]).map comparable =
+      .ok [(n, .ConstantBuffer, some 1)] := by
+    simp [hlslBindings, decls, toDecl, reports, report, reportedName, Except.map, comparable, isAddressKind]
+  refine ⟨h1, h2, ?_⟩
+  rw [← bindings_shared_through_simplify_partial .HlslForDirectX false [.cbuffer n ms] rfl
+    (by intro d hd; simp [decls, toDecl] at hd; subst hd; exact hn)]
+  exact h1
+
+set_option maxRecDepth 8000 in
+/-- non-vacuity: an empty block, a block with members and a texture array; the rewritten module has two more root
+    definitions and no cbuffer, and all three targets agree on the compared part -/
+example :
+    let rs : List Root := [.cbuffer "g_empty" [], .global "g_t" (.object .Texture2D (.sized 2) false), .other,
+      .cbuffer "g_cb" ["a", "b"]]
+    simplify rs = [.struct "g_emptyType" [], .global "g_empty" (.object .ConstantBuffer .single false) true,
+      .global "g_t" (.object .Texture2D (.sized 2) false) false, .other,
+      .struct "g_cbType" ["a", "b"], .global "g_cb" (.object .ConstantBuffer .single false) true] ∧
+    (mslBindings codeNameMaps rs).map comparable =
+      .ok [("g_empty", .ConstantBuffer, some 1), ("g_t", .Texture2d, some 2), ("g_cb", .ConstantBuffer, some 1)] ∧
+    (hlslBindings codeNameMaps .HlslForDirectX false rs).map comparable = (mslBindings codeNameMaps rs).map comparable := by
+  decide
+
+end Simplify
 
 end RsslVerif.Thm.C18
